@@ -1215,6 +1215,51 @@ def part_F(rng, tier, V, replay=None):
 # ---------------------------------------------------------------------------
 
 
+def part_P(rng, tier, V):
+    """'... and never modifies the tile it inspects': tiles obtained by each of the four construction routes are
+    handed to each kind of filter; corners, orientation and the pixel grid must be the same afterwards, and a
+    second call must decide the same."""
+    from toasty import toast
+    from toasty.pyramid import Pos
+    from toasty.samplers import _latlon_tile_filter, ChunkedPlateCarreeSampler
+    from toasty.toast import ToastCoordinateSystem as CS
+    n = 0
+    boxes = [(0.3, 1.2, -0.4, 0.9), (6.0, 6.9, -1.5, -1.2), (2.0, 9.5, -0.1, 0.1), (-0.2, 0.1, 1.2, HALFPI)]
+    glob = (np.arange(24 * 12, dtype=np.float32) + 1).reshape(12, 24)
+    chunker = ChunkedPlateCarreeSampler(FakeChunked(glob, [8, 8, 8], [6, 6]), planetary=True)
+    filters = [("latlon box %s" % (b,), _latlon_tile_filter(*b)) for b in boxes]
+    filters += [(f"chunk {ic}", chunker.filter(ic)) for ic in (0, 4)]
+    for csn in ("astronomical", "planetary"):
+        cs = CS(csn)
+        tiles = []
+        for _ in range(6 if tier == "quick" else 40):
+            d = rng.choice((2, 3, 4, 5))
+            p = Pos(d, rng.randrange(2 ** d), rng.randrange(2 ** d))
+            tiles.append(("create_single_tile", toast.create_single_tile(p, cs)))
+            lat, lon = rng.uniform(-1.4, 1.4), rng.uniform(0, 6.28)
+            tiles.append(("toast_tile_for_point", toast.toast_tile_for_point(d, lat, lon, coordsys=cs)))
+        gen = list(toast.generate_tiles(3, bottom_only=False, coordsys=cs))
+        tiles += [("generate_tiles", t) for t in rng.sample(gen, 6)]
+        genf = list(toast.generate_tiles_filtered(3, lambda t: True, bottom_only=False, coordsys=cs))
+        tiles += [("generate_tiles_filtered", t) for t in rng.sample(genf, 6)]
+        for route, t in tiles:
+            for fname, flt in filters:
+                before = (tuple(map(int, t.pos)), [tuple(float(v) for v in c) for c in t.corners], bool(t.increasing))
+                lon0, lat0 = toast.toast_tile_get_coords(t)
+                d1 = bool(flt(t))
+                after = (tuple(map(int, t.pos)), [tuple(float(v) for v in c) for c in t.corners], bool(t.increasing))
+                lon1, lat1 = toast.toast_tile_get_coords(t)
+                d2 = bool(flt(t))
+                n += 1
+                if before != after or not (np.array_equal(lon0, lon1) and np.array_equal(lat0, lat1)) or d1 != d2:
+                    V.disagreement("filter purity: a tile filter never modifies the tile it inspects (theorem filter_pure)",
+                                   dict(kind="purity", route=route, coordsys=csn, pos=list(before[0]), filter=fname),
+                                   dict(corners=before[1]), dict(corners_after=after[1], decisions=[d1, d2],
+                                                                 pixel_grid_changed=not np.array_equal(lon0, lon1)), True)
+                    return dict(filter_purity_calls=n)
+    return dict(filter_purity_calls=n)
+
+
 def run(ctx, V):
     tier = ctx["tier"]
     rp = (ctx.get("replay") or {}).get("case") or {}
@@ -1241,6 +1286,9 @@ def run(ctx, V):
         nontrivial = r[1]
         samples += r[2]
     r = part("B", part_B)
+    if r:
+        cov.update(r)
+    r = part("P", part_P)
     if r:
         cov.update(r)
     for name, fn, k in (("C", part_C, "chunks"), ("D", part_D, "bounds"), ("E", part_E, "box_e2e"), ("F", part_F, "tan")):
